@@ -97,6 +97,7 @@ func c04Gen(rt *rapid.T) stormCase {
 		c.Clients = append(c.Clients, sc)
 	}
 	c.Steps = genStormSteps(rt, c.Hosts, 4)
+	c.Warn = rapid.IntRange(0, 3).Draw(rt, "backendwarns") == 0
 	return c
 }
 
